@@ -93,16 +93,17 @@ func init() {
 		return e.freshResult(st, "addrstr", resT)
 	}
 	libModels["encoding/asn1.Marshal"] = func(e *Engine, st *State, fr *Frame, args []Val, resT types.Type, pos token.Pos, ins ssa.Instruction) Val {
-		used(e, "encoding/asn1.Marshal: deterministic function of the value (byte-slice fields by content); assumed not to fail for the struct shapes of this repository (strings valid UTF-8)")
+		used(e, "encoding/asn1.Marshal: may fail (e.g. a string field that is not valid UTF-8); on success the bytes are a deterministic function of the value (byte-slice fields by content)")
 		errT := resTypeAt(resT, 1)
+		er := st.freshVal("asn1err", errT)
 		sv, ok := structValOfArg(e, st, fr, ins, args[0])
 		if !ok {
 			b := e.freshResult(st, "asn1", resTypeAt(resT, 0))
-			return tupleOf(resT, b, Val{S: nilIface, T: errT})
+			return tupleOf(resT, b, er)
 		}
 		content := e.asn1Of(st, sv)
 		b := e.freshBytes(st, resTypeAt(resT, 0), content, "asn1")
-		return tupleOf(resT, b, Val{S: nilIface, T: errT})
+		return tupleOf(resT, b, er)
 	}
 	libModels["encoding/asn1.Unmarshal"] = func(e *Engine, st *State, fr *Frame, args []Val, resT types.Type, pos token.Pos, ins ssa.Instruction) Val {
 		used(e, "encoding/asn1.Unmarshal: total; writes only *val (arbitrary well-typed content); on success the bytes are the encoding of the decoded value followed by rest")
@@ -214,6 +215,9 @@ func (e *Engine) havocStructContents(st *State, v Val, s *types.Struct, stt type
 
 // contract built-ins that name the same uninterpreted functions
 func (e *Engine) netBuiltin(env *Env, name string, ex *SExpr) (Val, bool) {
+	if v, ok := e.algBuiltin(env, name, ex); ok {
+		return v, true
+	}
 	if env.quant > 0 || env.st == nil {
 		return Val{}, false
 	}
